@@ -260,3 +260,43 @@ def factorizations(n, maxlen=3):
     if n == 1:
         out.append([1])
     return out
+
+
+# ----------------------------------------------------------------------------------- more generators / linear algebra
+def lowrank_cores(rng, rows, cols, ranks, cplx=False, q=1):
+    """cores whose right bond has numerical rank <= q although the representation rank is ranks[k+1]"""
+    cores = []
+    d = len(rows)
+    for i in range(d):
+        rl, rr = ranks[i], ranks[i + 1]
+        qq = min(q, rr)
+        X = rand_array(rng, (rl * rows[i] * cols[i], qq), cplx)
+        Y = rand_array(rng, (qq, rr), cplx)
+        cores.append((X @ Y).reshape(rl, rows[i], cols[i], rr))
+    return cores
+
+
+def left_unf(c):
+    return c.reshape(c.shape[0] * c.shape[1] * c.shape[2], c.shape[3])
+
+
+def right_unf(c):
+    return c.reshape(c.shape[0], c.shape[1] * c.shape[2] * c.shape[3])
+
+
+def is_left_orth(c, tol=1e-10):
+    u = left_unf(np.asarray(c))
+    return bool(np.linalg.norm(u.conj().T @ u - np.eye(u.shape[1])) <= tol * max(1, u.shape[1]))
+
+
+def is_right_orth(c, tol=1e-10):
+    v = right_unf(np.asarray(c))
+    return bool(np.linalg.norm(v @ v.conj().T - np.eye(v.shape[0])) <= tol * max(1, v.shape[0]))
+
+
+def unfolding_svals(a, d, k):
+    """singular values of the k-th unfolding (sites 0..k-1 | k..d-1) of a dense (m1..md, n1..nd) array"""
+    perm = [x for i in range(d) for x in (i, d + i)]
+    b = np.transpose(a, perm)
+    left = int(np.prod(b.shape[:2 * k]))
+    return np.linalg.svd(b.reshape(left, -1), compute_uv=False)
